@@ -98,6 +98,14 @@ class Check:
         self.findings: List[Finding] = []
         self.inconclusive: List[str] = []
         self.known = [k for k in load_known() if k.get('property') == pid]
+        # replays of earlier runs of this property are stale
+        d = REPLAYS / pid
+        if d.exists():
+            for f in d.glob('*.json'):
+                try:
+                    f.unlink()
+                except OSError:
+                    pass
 
     # -- bookkeeping -------------------------------------------------------
     def functions(self, *names: str):
